@@ -12,6 +12,8 @@ As built: Catalogue extras: fit / first partial_fit with fewer rows than cluster
 from mon import env  # noqa: F401
 import copy
 import hashlib
+
+import numpy as np
 import pickle
 
 from mabwiser.mab import MAB
@@ -82,6 +84,37 @@ def run_ctor(rs, ctx, j):
     ctx.nt(name, "ctor", gen.cfg_sig(cfg))
 
 
+def _ts_lps(m):
+    imp = m._imp
+    return [x for x in [getattr(imp, "lp", None)] + list(getattr(imp, "lp_list", None) or []) + [imp]
+            if x is not None and hasattr(x, "is_contextual_binarized")]
+
+
+def k7_explains(M0, T0, cont, which):
+    """defect-aware model of known finding K7: undo exactly what K7 describes on a copy of the bandit as the failed call left it
+    (raise the conversion flags it lowered; for fit: put back the history arrays / trees it replaced before converting) and run
+    the continuation again - K7 explains the witness iff something was undone and the repaired copy then equals the pre-call copy"""
+    undone = 0
+    for a, b in zip(_ts_lps(M0), _ts_lps(T0)):
+        if a.is_contextual_binarized != b.is_contextual_binarized:
+            a.is_contextual_binarized = b.is_contextual_binarized
+            undone += 1
+    if which == "fit":
+        im, it = M0._imp, T0._imp
+        if hasattr(im, "decisions") and hasattr(im, "rewards") and im.decisions is not None and it.decisions is not None and \
+                (len(im.decisions) != len(it.decisions) or not np.array_equal(np.asarray(im.decisions), np.asarray(it.decisions))) and \
+                np.array_equal(np.asarray(im.rewards), np.asarray(it.rewards)):
+            im.decisions, im.contexts = copy.deepcopy(it.decisions), copy.deepcopy(it.contexts)
+            undone += 1
+        if hasattr(im, "arm_to_leaf_to_rewards") and all(len(v) == 0 for v in im.arm_to_leaf_to_rewards.values()) and \
+                any(len(v) > 0 for v in it.arm_to_leaf_to_rewards.values()):
+            im.arm_to_tree, im.arm_to_leaf_to_rewards = copy.deepcopy(it.arm_to_tree), copy.deepcopy(it.arm_to_leaf_to_rewards)
+            undone += 1
+    if not undone:
+        return False
+    return not twin.first_diff(gen.run_ops(M0, cont), gen.run_ops(T0, cont))
+
+
 def run_case(rs, ctx):
     grid = 48 * NC
     rounds = ROUNDS[ctx.tier]
@@ -93,6 +126,8 @@ def run_case(rs, ctx):
     pos = POSITIONS[(rnd * 2 + ci + ctx.index % 48) % 5]
     name, layer, applies, make = CAT[ci]
     binz = gen.pick(rs, [None, None, "thr_inside"]) if l == "ts" and "nonbinary" not in name else None
+    if l == "ts" and name.endswith(":binarizer_raises"):
+        binz = gen.pick(rs, ["thr_strict", "inv_strict"])
     cfg = gen.gen_cfg(rs, l, p, labels=gen.pick(rs, ["int", "str", "float"]), n_arms=int(rs.integers(2, 5)), binarizer=binz)
     nf = int(gen.pick(rs, [2, 3]))
     if name in ("partial_fit:singular_l2_zero", "fit:singular_l2_zero", "fit:singular_other_width") and cfg["lp"]["kind"] in ("lingreedy", "linucb"):
@@ -178,8 +213,14 @@ def run_case(rs, ctx):
         # a shape error from inside *prediction* is not among the rejections the property lists; prediction may advance
         # the random streams (C10), so only "nothing learned changed" is demanded: generator positions are copied over
         rngs.graft(M, T)
+    callback = name.endswith(":binarizer_raises")
+    M0, T0 = (copy.deepcopy(M), copy.deepcopy(T)) if callback else (None, None)
     oM, oT = gen.run_ops(M, cont), gen.run_ops(T, cont)
     d = twin.first_diff(oM, oT)
+    if d and callback and k7_explains(M0, T0, cont, name.split(":")[0]):
+        ctx.violation("%s [%s at %s]: %s failed in the user's binarizer and left the bandit changed (conversion flag lowered / fit published "
+                      "or reset state before converting the rewards)" % (gen.cfg_sig(cfg), name, pos, desc), wit, mech="K7")
+        return
     if d:
         k = int(d.split("]")[0].split("[")[1]) if d.startswith("[") else -1
         ctx.violation("%s [%s at %s]: after the rejected call %s (%s) the bandit differs from its pre-call copy at continuation "
